@@ -1963,8 +1963,9 @@ func freshSliceLens(v ssa.Value, env *fxEnv, depth int) ([]ssa.Value, bool) {
 func restoreCheck(c *Ctx) {
 	type site struct {
 		fn   *ssa.Function
-		node *ssa.Parameter
+		node ssa.Value // the node parameter, or the decoder's own `var node mastNode`
 		what string
+		from ssa.CallInstruction // own-variable shape: the decode call after which the list must be restored
 	}
 	var sites []site
 	nodeParam := func(fn *ssa.Function) *ssa.Parameter {
@@ -1980,7 +1981,16 @@ func restoreCheck(c *Ctx) {
 		for _, ci := range c.P.Callers[dec] {
 			fn := ci.Parent()
 			if p := nodeParam(fn); p != nil {
-				sites = append(sites, site{fn, p, "binary decoder path"})
+				sites = append(sites, site{fn, p, "binary decoder path", nil})
+				continue
+			}
+			// the calling function declares the node itself (`var node mastNode; unmarshalMastNode(m, b, &node)`,
+			// returned as &node): the same obligations on that variable, on the paths from the decode call
+			for _, a := range ci.Common().Args {
+				if al, ok := ir.ResolveCell(a).(*ssa.Alloc); ok && al.Parent() == fn && ir.IsPtrToNamed(al.Type(), "mastNode") {
+					sites = append(sites, site{fn, al, "binary decoder path", ci})
+					break
+				}
 			}
 		}
 	}
@@ -2000,7 +2010,7 @@ func restoreCheck(c *Ctx) {
 			}
 			if mi, ok := com.Args[1].(*ssa.MakeInterface); ok {
 				if fa, ok := mi.X.(*ssa.FieldAddr); ok && ir.ResolveCell(fa.X) == ssa.Value(p) && ir.IsPtrToNamed(fa.Type(), "Node") {
-					sites = append(sites, site{fn, p, "registered-types JSON decoder"})
+					sites = append(sites, site{fn, p, "registered-types JSON decoder", nil})
 				}
 			}
 		}
@@ -2018,7 +2028,7 @@ func restoreCheck(c *Ctx) {
 					continue
 				}
 				b2, p, ok := fxFieldAddr(st.Addr)
-				if ok && p == "Link" && b2 == ssa.Value(node) {
+				if ok && p == "Link" && b2 == node {
 					stores = append(stores, st)
 				}
 			}
@@ -2039,7 +2049,7 @@ func restoreCheck(c *Ctx) {
 				continue
 			}
 			for _, ln := range lens {
-				if b, ok := fxIsLenOfFieldPlus1(ln, "Key"); !ok || b != ssa.Value(node) {
+				if b, ok := fxIsLenOfFieldPlus1(ln, "Key"); !ok || b != node {
 					okLen = false
 					c.Violation(fn, c.P.InstrPos(st), construct, s.what+": the restored link list has length "+ir.Sym(ln)+", the writer dropped len(node.Key)+1 nil links")
 				}
@@ -2048,9 +2058,25 @@ func restoreCheck(c *Ctx) {
 		if !okLen {
 			continue
 		}
+		start := fn.Blocks[0]
+		if s.from != nil {
+			// the variable is zero before the decode call: the obligations start there; a store of the link list
+			// that does not follow the call is not a restoration
+			start = s.from.Block()
+			early := false
+			for _, st := range stores {
+				if !ir.InstrReaches(s.from, st) {
+					early = true
+					c.Undecided(fn, c.P.InstrPos(st), construct, s.what+": node.Link is assigned on a path that does not come from the decode call")
+				}
+			}
+			if early {
+				continue
+			}
+		}
 		// present list must not be overwritten
 		as := linkEmptyAssume(node, false)
-		reach := as.reach(fn.Blocks[0])
+		reach := as.reach(start)
 		over := false
 		for _, st := range stores {
 			if reach[st.Block()] {
@@ -2060,9 +2086,9 @@ func restoreCheck(c *Ctx) {
 		}
 		// empty list must be restored on every successful path
 		as = linkEmptyAssume(node, true)
-		reach = ir.ReachableFrom(fn.Blocks[0], func(f, t *ssa.BasicBlock) bool { return !as.edgeLive(f, t) || storeBlocks[t] })
+		reach = ir.ReachableFrom(start, func(f, t *ssa.BasicBlock) bool { return !as.edgeLive(f, t) || storeBlocks[t] })
 		missed := false
-		if !storeBlocks[fn.Blocks[0]] {
+		if !storeBlocks[start] {
 			for _, r := range fxSuccessReturns(fn) {
 				if reach[r.Block()] {
 					missed = true
